@@ -251,7 +251,12 @@ func init() {
 	streams["rlimit"] = func(seed int64, idx int) *scenario {
 		return runReaderScenario(seed*1000003+int64(idx), rOpts{mode: "limit", handlers: idx%4 == 0, smallOnly: true})
 	}
-	streams["rfuzz"] = func(seed int64, idx int) *scenario { return runFuzzScenario(seed*1000003 + int64(idx)) }
+	streams["rfuzz"] = func(seed int64, idx int) *scenario {
+		if idx%300 == 299 {
+			return runManyEmptyJoinScenario(seed*1000003 + int64(idx))
+		}
+		return runFuzzScenario(seed*1000003 + int64(idx))
+	}
 	streams["hsfault"] = func(seed int64, idx int) *scenario { return runHsFaultScenario(seed*1000003+int64(idx), idx) }
 	streams["glue"] = func(seed int64, idx int) *scenario { return runGlueScenario(seed*1000003 + int64(idx)) }
 	streams["nego"] = func(seed int64, idx int) *scenario { return runNegoScenario(seed*1000003+int64(idx), idx) }
